@@ -59,12 +59,31 @@ func init() {
 	}})
 }
 
+func entropyRule(prop string) func(c *Ctx) {
+	return func(c *Ctx) {
+		if p := c.Prog("default"); p != nil {
+			EntropyFree(c, "default", entropyTargets(c, p, prop))
+		}
+	}
+}
+
+func both(fs ...func(c *Ctx)) func(c *Ctx) {
+	return func(c *Ctx) {
+		for _, f := range fs {
+			f(c)
+		}
+	}
+}
+
 func init() {
 	stale := func(pk ...string) func(c *Ctx) { return func(c *Ctx) { StaleResults(c, "default", pk) } }
 	extraRules["C15"] = stale("shuffle", "proof")
 	extraRules["C14"] = stale("proof")
 	extraRules["C13"] = stale("share/pvss", "proof/dleq")
-	extraRules["C08"] = stale("sign/schnorr", "sign/eddsa", "sign/anon")
+	extraRules["C08"] = both(stale("sign/schnorr", "sign/eddsa", "sign/anon"), entropyRule("C08"))
+	extraRules["C02"] = entropyRule("C02")
+	extraRules["C17"] = entropyRule("C17")
+	extraRules["C19"] = entropyRule("C19")
 	extraRules["C09"] = func(c *Ctx) {
 		stale("sign/bls", "sign/tbls", "sign/bdn", "sign/cosi")(c)
 		PairedUpdates(c, "default")
